@@ -18,10 +18,18 @@ NUMS = ['1', '1.', '(a)', '(A)', '2A', 'nn', '2_2', '1_2', '1.2.3', '(—)', '..
 OLD_EIDS = [None, None, None, '', 'x', 'sec_1', 'sec_1', 'part_A', 'dup', 'dup', 'hcontainer_1', 'sec_1__p_1', ' ', 'a b']
 
 
-def rand_tree(rng, depth=0, max_depth=5, in_meta=False):
+def rand_tree(rng, depth=0, max_depth=5, in_meta=False, palette=None):
+    """`palette` (chosen per tree): a few tags and nums that are reused with high probability, so that
+    siblings collide (same tag, same / case-twin / punctuation-variant num) far more often than by chance."""
+    if palette is None:
+        twins = rng.choice([['(a)', '(A)', 'a.', 'A'], ['1', '1.', '(1)', ' 1 '], ['i', 'I', '(i)'], ['2_2', '2', '2_2'], ['(—)', '...', '-', '']])
+        palette = {'tags': [rng.choice(HIER_TAGS + ['p', 'blockList', 'hcontainer', 'debateSection', 'speech']) for _ in range(3)],
+                   'nums': twins + [rng.choice(NUMS)], 'p': rng.choice([0.0, 0.3, 0.6, 0.8])}
     r = rng.random()
     if depth == 0:
         tag = rng.choice(['act', 'doc', 'judgment', 'body', 'section', 'mainBody', 'akomaNtoso', 'chapter', 'preface'])
+    elif rng.random() < palette['p']:
+        tag = rng.choice(palette['tags'])
     elif r < 0.35:
         tag = rng.choice(HIER_TAGS)
     elif r < 0.5:
@@ -42,18 +50,19 @@ def rand_tree(rng, depth=0, max_depth=5, in_meta=False):
     if tag not in ('num', 'br', 'img') and rng.random() < 0.6:
         nk = []
         if rng.random() < 0.85:
-            nk.append(rng.choice(NUMS) if rng.random() < 0.8 else chr(rng.choice([rng.randrange(0x20, 0x250), rng.randrange(0x2000, 0x2070), rng.randrange(0x2e00, 0x2e80), rng.randrange(0x3000, 0x3100)])))
+            nk.append(rng.choice(palette['nums']) if rng.random() < palette['p'] else rng.choice(NUMS) if rng.random() < 0.8 else chr(rng.choice([rng.randrange(0x20, 0x250), rng.randrange(0x2000, 0x2070), rng.randrange(0x2e00, 0x2e80), rng.randrange(0x3000, 0x3100)])))
         if rng.random() < 0.1:
             nk.append(['b', {}, ['x']])
             if rng.random() < 0.5:
                 nk.append('tail')
         nattrs = {'eId': 'numid'} if rng.random() < 0.05 else {}
+        nk = [x for x in nk if x != '']
         kids.append(['num', nattrs, nk])
         if rng.random() < 0.1:
             kids.append(['num', {}, [rng.choice(NUMS)]])
     if depth < max_depth and tag not in ('num', 'br', 'img'):
         for _ in range(rng.choice([0, 0, 1, 1, 2, 2, 3, 4]) if depth else rng.randint(1, 4)):
-            kids.append(rand_tree(rng, depth + 1, max_depth, in_meta or tag == 'meta'))
+            kids.append(rand_tree(rng, depth + 1, max_depth, in_meta or tag == 'meta', palette))
             if rng.random() < 0.1:
                 kids.append(rng.choice(['tail text', '\n  ']))
     # merge adjacent strings (an element tree cannot hold two adjacent text nodes)
